@@ -10,13 +10,14 @@ from collections import OrderedDict
 from common import hexs, unhexs, use_repo
 
 PROPERTY = 'C07'
-LEAN_MODULES = ['YatimlModel.Props.C07', 'YatimlModel.Props.C07Parse']
+LEAN_MODULES = ['YatimlModel.Props.C07', 'YatimlModel.Props.C07Parse', 'YatimlModel.Props.C07EndToEnd']
 THEOREMS = ['YatimlModel.C07.' + t for t in [
     'C07_machine_refines_renderer', 'C07_emit_is_canonical_json', 'C07_same_data_all_indents',
     'C07_compact', 'C07_indent_shape', 'C07_alias_raises', 'C07_dumps_ascii',
     'C07_dumps_valid_string', 'C07_numbers_are_json', 'C07_string_token_denotes',
     'C07_rendered_text_parses', 'C07_emitted_text_is_json', 'C07_same_value_all_options',
-    'C07_number_texts_wf']]
+    'C07_number_texts_wf', 'C07_non_ascii_unescaped', 'C07_unicode_mode_keeps_non_ascii',
+    'C07_dumps_json_is_projection']]
 RULE = ('(a) every (top-of-stack state x event kind x indent x current indent) step of the real '
         'Dumper.emit_json against the model step (exhaustive over that finite domain); (b) every '
         'plain-data tree shape up to a node bound x indent in {None,0..8} x ensure_ascii, plus '
@@ -638,12 +639,75 @@ def explore_parser(ctx, real):
                          dict(text=t[:300], reference=got[:300], python=want[:300]))
 
 
+def explore_projection(ctx, real):
+    """C07_dumps_json_is_projection on the real code: for generated class models without sweeten hooks
+    and values of their types, the text the real dumps_json writes - read by json.loads as a strict
+    RFC 8259 reader - is the JSON projection `jsonOf` of the value as the Lean specification computes it
+    (driver command `jproject`).  Ties the specification of the projection to what yatiml writes."""
+    import classmodel as CM
+    import dumprun as D
+    import loadgen as G
+    rng = ctx.rng
+    yaml, yatiml = real.yaml, real.yatiml
+    reqs, wants, descs = [], [], []
+    target = ctx.budget(250, 4000)
+    made = attempts = 0
+    while made < target and attempts < target * 6:
+        attempts += 1
+        spec, cands = G.gen_model(rng)
+        if any(c.get('sweeten') for c in spec):
+            continue
+        try:
+            model = CM.Model(spec)
+            t = rng.choice(cands)
+            v = D.gen_value(rng, model, t)
+            wire = D.dump_val_sexp(v, model)
+            dj = yatiml.dumps_json_function(*model.registered)
+        except (D.GenFail, G.GenFail):
+            continue
+        except Exception as e:  # noqa
+            ctx.count('projection_gen_error:' + type(e).__name__)
+            continue
+        indent = rng.choice([None, None, 0, 1, 2, 4, 7])
+        ea = rng.random() < 0.5
+        try:
+            text = dj(v, indent=indent, ensure_ascii=ea)
+        except Exception as e:  # noqa  (shared sub-objects: aliases; C07 is about tree-shaped values)
+            ctx.count('projection_dump_raises:' + type(e).__name__)
+            continue
+        got = python_reading(text)
+        if got is None:
+            continue
+        made += 1
+        reqs.append('jproject ' + wire)
+        wants.append(got)
+        descs.append(dict(classes=model.source[-2500:], value=repr(v)[:600], text=text[:3000], indent=indent,
+                          ensure_ascii=ea, nonfinite=any(x in text for x in ('NaN', 'Infinity', '.nan', '.inf'))))
+    answers = ctx.driver(reqs) if reqs else []
+    for ans, want, desc in zip(answers, wants, descs):
+        ctx.count('projection_cases')
+        if ans == 'outside':
+            # bytes, keys that are not strings, ...: outside C07's domain
+            ctx.count('projection_outside_domain')
+            continue
+        if desc.pop('nonfinite'):
+            ctx.count('projection_nonfinite_float')
+            continue
+        ctx.case(('projection', desc['value'], desc['indent'], desc['ensure_ascii']), nontrivial=True)
+        if want == 'reject':
+            ctx.violation('dumps_json output is not RFC 8259 JSON', dict(desc, key='projection-invalid:' + desc['value'][:60]))
+        elif ans != want:
+            ctx.violation('dumps_json output does not denote the JSON projection of the value',
+                          dict(desc, key='projection:' + desc['value'][:60], projection=ans[:400], parsed=want[:400]))
+
+
 def explore(ctx):
     real = Real()
     explore_steps(ctx, real)
     explore_strings(ctx, real)
     explore_trees(ctx, real)
     sweetened_scalars(ctx, real.yaml, real.yatiml)
+    explore_projection(ctx, real)
     explore_parser(ctx, real)
 
 
